@@ -482,6 +482,8 @@ def gen_case(rng, cid, profile="mixed", maxops=24):
 
     def size():
         r = rng.random()
+        if profile == "faults":
+            return rng.choice([1, 2, 3, 5, 8, 13, 64, 1024, 4096]) if r < 0.5 else rng.randint(1, 40)
         if profile == "marks" and r < 0.6:
             return max(0, rng.choice([mark - backlog - 1, mark - backlog, mark - backlog + 1, mark, 1, 0, rng.randint(0, 2 * mark + 2)]))
         if r < 0.04:
@@ -492,6 +494,16 @@ def gen_case(rng, cid, profile="mixed", maxops=24):
 
     def kres(nbytes):
         r = rng.random()
+        if profile == "faults":
+            if r < 0.2:
+                return "all"
+            if r < 0.55:
+                return "a%d" % max(0, rng.choice([0, 1, nbytes // 2, nbytes - 1, nbytes, rng.randint(0, nbytes + 1)]))
+            if r < 0.8:
+                return "eagain"
+            if r < 0.95:
+                return "eintr"
+            return "eother"
         if r < 0.35:
             return "all"
         if r < 0.75:
@@ -507,6 +519,7 @@ def gen_case(rng, cid, profile="mixed", maxops=24):
         "marks": dict(SEND=10, FS=4, EVW=8, RUN=6, RD=1, RET=0.5, SPR=0.5, SHUT=0.3, FC=0.2, EOF=0.2, ERRS=0.5),
         "close": dict(SEND=6, FS=5, EVW=5, RUN=6, RD=3, RET=1, SPR=1, SHUT=4, FC=3, EOF=2, ERRS=1),
         "mixed": dict(SEND=6, FS=4, EVW=5, RUN=5, RD=3, RET=2, SPR=2, SHUT=2, FC=1.5, EOF=1, ERRS=1),
+        "faults": dict(SEND=7, FS=5, EVW=8, RUN=6, RD=4, RET=2, SPR=1, SHUT=1, FC=0.5, EOF=0.7, ERRS=5),
     }[profile]
     kinds = list(weights)
     wts = [weights[k] for k in kinds]
@@ -713,3 +726,37 @@ def crash_signature(case, idx, stderr):
         if any(o.split()[0] == "XSR" for o in ops):
             return "startRead-functor-runs-after-close"
     return None
+
+
+TRANSIENT = ("eagain", "eintr", "eother")
+
+
+def calm_case(c):
+    """the same scenario with every transient fault replaced by the corresponding zero-progress outcome:
+    a failed write -> a write that takes 0 bytes, a failed read / error event -> no event"""
+    ops = []
+    for op in c.ops:
+        t = op.split()
+        if t[0] in ("RERR", "ERR"):
+            continue
+        if t[0] in ("SEND", "EVW", "RUN"):
+            t = [("a0" if x in TRANSIENT else x) for x in t]
+        ops.append(" ".join(t))
+    return vlib.Case(c.cid + "_calm", c.header, ops, "calm")
+
+
+def transparency(tr_fault, tr_calm):
+    """C11: the faulted run and the calmed run must agree on everything a user or the peer can see"""
+    msgs = []
+    ev1 = [e for (_, e) in events(tr_fault)]
+    ev2 = [e for (_, e) in events(tr_calm)]
+    if ev1 != ev2:
+        msgs.append("callbacks differ: with faults %s, without %s" % (ev1[:12], ev2[:12]))
+    if tr_fault.final_stream != tr_calm.final_stream:
+        msgs.append("outbound stream (wire ++ backlog) differs between the faulted and the fault-free run")
+    if tr_fault.final_in != tr_calm.final_in:
+        msgs.append("input buffer differs between the faulted and the fault-free run")
+    a, b = (tr_fault.obs[-1] if tr_fault.obs else None), (tr_calm.obs[-1] if tr_calm.obs else None)
+    if a and b and (a.st, a.out, a.wire, a.fin, a.wr, a.rd, a.reg, a.pend) != (b.st, b.out, b.wire, b.fin, b.wr, b.rd, b.reg, b.pend):
+        msgs.append("final state differs: %s vs %s" % ((a.st, a.out, a.wire, a.fin, a.wr, a.rd, a.reg, a.pend), (b.st, b.out, b.wire, b.fin, b.wr, b.rd, b.reg, b.pend)))
+    return msgs
